@@ -16,6 +16,8 @@ func extra(cmd string, args []string) {
 	switch cmd {
 	case "splitx":
 		cmdSplitX(args)
+	case "gemhist":
+		cmdGemHist(args)
 	default:
 		fmt.Fprintln(os.Stderr, "unknown command", cmd)
 		os.Exit(2)
